@@ -398,7 +398,8 @@ Inductive op :=
 | ORemove (i : nat) (keep : bool)
 | OUpgrade (i : nat) (force start : bool) (tv : N) (binok dyn : bool)
 | ORefresh
-| OKill (i : nat).            (* environment: the process of service i dies on its own *)
+| OKill (i : nat)             (* environment: the process of service i dies on its own *)
+| ORestart (i : nat).         (* environment: it dies and the OS service manager brings it back under a fresh pid *)
 
 Fixpoint set_nth {A} (i : nat) (x : A) (l : list A) : list A :=
   match l, i with
@@ -421,6 +422,15 @@ Definition kill_proc (n : N) (e : env) : env :=
                     (enc e) (elog e) (elied e) (p :: ekilled e) (edisk e)
   end.
 
+(* out-of-band restart: no manager call is involved, so no call index is consumed *)
+Definition restart_proc (n : N) (e : env) : env :=
+  let o := eos e in
+  match live o n with
+  | None => e
+  | Some p => mkEnv (mkOs (installed o) ((n, next_pid o) :: del n (procs o)) (next_pid o + 1) (next_port o) (dirs o))
+                    (enc e) (elog e) (elied e) (p :: ekilled e) (edisk e)
+  end.
+
 Definition step (F : list N) (w : world) (o : op) : world * N :=
   match o with
   (* the registry file holds the registry the command loaded (every step ends with a save) *)
@@ -434,6 +444,10 @@ Definition step (F : list N) (w : world) (o : op) : world * N :=
                | None => (w, C_NO_SUCH_INDEX)
                | Some s => (mkW (reg w) (kill_proc (number s) (wenv w)), C_OK)
                end
+  | ORestart i => match nth_error (reg w) i with
+                  | None => (w, C_NO_SUCH_INDEX)
+                  | Some s => (mkW (reg w) (restart_proc (number s) (wenv w)), C_OK)
+                  end
   end.
 
 Definition FIRST_PID := 1000.
@@ -447,7 +461,7 @@ Definition run (F : list N) (ops : list op) : world := run_from F init ops.
 (* what the antctl commands do: refresh the registry first, then act on the service *)
 Inductive cmd :=
 | CAdd (o : addopts) | CStart (i : nat) (dyn : bool) | CStop (i : nat) | CRemove (i : nat) (keep : bool)
-| CUpgrade (i : nat) (force start : bool) (tv : N) (binok dyn : bool) | CStatus | CKill (i : nat).
+| CUpgrade (i : nat) (force start : bool) (tv : N) (binok dyn : bool) | CStatus | CKill (i : nat) | CRestart (i : nat).
 
 Definition expand1 (c : cmd) : list op :=
   match c with
@@ -458,6 +472,7 @@ Definition expand1 (c : cmd) : list op :=
   | CUpgrade i f s t b d => [ORefresh; OUpgrade i f s t b d]
   | CStatus => [ORefresh]
   | CKill i => [OKill i]
+  | CRestart i => [ORestart i]
   end.
 Definition expand (cs : list cmd) : list op := flat_map expand1 cs.
 
